@@ -3,7 +3,7 @@
 They wrap namespaced methods of the node classes from the outside.  If the wrapped names disappear the probe
 reports nothing, and the violation is then reported as an ordinary VIOLATION (fail-safe direction)."""
 
-counters = {'prefilter_drops': 0}
+counters = {'prefilter_drops': 0, 'partial_list_prune': 0}
 _installed = False
 
 
@@ -24,6 +24,15 @@ def install():
                 after = sum(1 for _ in self.ayns.nodes(allow_duplicates=True))
                 if after != before:
                     counters['prefilter_drops'] += 1
+                return ret
+            if getattr(condition, '__name__', '') == 'maybe_keep':
+                # pruning of the older tree under a deleting newer node: did a LIST lose some but not all of its elements?
+                # (the survivors then move to lower indices before the newer elements are merged index-wise)
+                lists = [n for n in self.ayns.nodes(include_self=True, allow_duplicates=True) if isinstance(n, list)]
+                before = {id(n): len(n) for n in lists}
+                ret = orig(self, condition, prefix=prefix, removed=removed)
+                if any(0 < len(n) < before[id(n)] for n in lists):
+                    counters['partial_list_prune'] += 1
                 return ret
             return orig(self, condition, prefix=prefix, removed=removed)
         ns._names['filter_nodes'] = filter_nodes
